@@ -38,10 +38,14 @@ Two things the application can do are events as well: `obsCancel` = `request.obs
 (the runner notices at its next resumption: `self.observation.cancelled` is tested in the loop and —
 since commit 5a6f232 — on the first-event paths as well, so an observation
 cancelled before the first response is never told anything while the response future completes as
-usual) and `respCancel` = `request.response.cancel()` (`protocol.py:681-698`).  `obsCancel` twice
-(the "cancelled twice" assertion of `ClientObservation.cancel`, raised in the application's own
-call), or on a request without Observe option (`request.observation` is `None`), is not modelled:
-state `unmodelled` (the driver answers `out-of-model`).
+usual) and `respCancel` = `request.response.cancel()` (`protocol.py:681-698`).  `obsCancel` on an
+observation that is cancelled already — by the application, or because it has ended: `error()`
+cancels — does nothing (`ClientObservation.cancel`, `protocol.py:1428-1449`, since the `fix:`
+commit "cancelling an observation that is already cancelled does nothing"; that also covers an
+errback that cancels the observation it is being told the end of: no separate event, the
+deliveries are the same).  `obsCancel` on a request without Observe option
+(`request.observation` is `None`) is not modelled: state `unmodelled` (the driver answers
+`out-of-model`).
 
 The lossy `_Iterator` behind `async for` and the replay done by `__aiter__` are modelled in
 `Observe/Iterator.lean`.  Not modelled (runtime): the asyncio future behind `response`,
@@ -147,7 +151,7 @@ def stepCancelledFirst : Event → ObsState × List Delivery
       | none => (.ended, [.response m, .stopInterest])
       | some _ => (.appCancelled, [.response m])
   | .exception k => (.ended, [.responseExc k])
-  | .obsCancel => (.unmodelled, [])            -- "ClientObservation cancelled twice"
+  | .obsCancel => (.cancelledFirst, [])        -- cancelled already: `cancel()` does nothing
   | .respCancel => (.ended, [.stopInterest])
 
 /-- one turn of the `while True` loop, `protocol.py:779-848`.  `gone`: the application cancelled
@@ -175,7 +179,7 @@ def stepObserving (cfg : Cfg) (v1 t1 t : Nat) : Event → ObsState × List Deliv
 def stepCancelled : Event → ObsState × List Delivery
   | .message _ _ => (.ended, [.stopInterest])
   | .exception _ => (.ended, [.stopInterest])
-  | .obsCancel => (.unmodelled, [])            -- "ClientObservation cancelled twice"
+  | .obsCancel => (.appCancelled, [])          -- cancelled already: `cancel()` does nothing
   | .respCancel => (.appCancelled, [])
 
 def step (cfg : Cfg) (s : ObsState) (e : TEvent) : ObsState × List Delivery :=
@@ -186,9 +190,10 @@ def step (cfg : Cfg) (s : ObsState) (e : TEvent) : ObsState × List Delivery :=
   | .appCancelled => stepCancelled e.ev
   | .ended =>
     -- the pipe discards the event (`pipe.py:166-180`); `response.cancel()` finds nothing to do;
-    -- `observation.cancel()` on an observation that `error()` already cancelled trips the
-    -- "cancelled twice" assertion in the application's call: not modelled
-    (if e.ev = .obsCancel then .unmodelled else .ended, [])
+    -- `observation.cancel()`: the observation of a runner that has returned is cancelled (by
+    -- `error()` or by the application), so it does nothing; without Observe option there is no
+    -- observation to call it on: not modelled
+    (if e.ev = .obsCancel && !cfg.observe then .unmodelled else .ended, [])
   | .unmodelled => (.unmodelled, [])
 
 /-- a whole history; every delivery is tagged with the time of the event that caused it -/
